@@ -143,6 +143,40 @@ def strPath (j : Json) (path : List String) : String :=
     | some v => strPath v rest
     | none => ""
 
+/-- drop empty strings, nulls, empty objects and empty arrays, recursively -/
+partial def dropEmpty (j : Json) : Option Json :=
+  match j with
+  | .null => none
+  | .str s => if s.isEmpty then none else some j
+  | .arr xs => let ys := xs.toList.filterMap dropEmpty; if ys.isEmpty then none else some (Json.arr ys.toArray)
+  | .obj kvs =>
+    let ys := kvs.toList.filterMap fun (k, v) => (dropEmpty v).map fun w => (k, w)
+    if ys.isEmpty then none else some (Json.mkObj ys)
+  | _ => some j
+
+def pick (j : Json) (keys : List (String × String)) : Json :=
+  Json.mkObj (keys.filterMap fun (from_, to) => (getMember (some j) from_).map fun v => (to, v))
+
+/-- what the configuration says the document's `info` is -/
+def expectedInfo (cfg : Json) : Json :=
+  let info := (getMember (some cfg) "openapiGeneratorConfig" |>.bind (getMember · "info")).getD Json.null
+  let base := pick info [("title", "title"), ("version", "version"), ("description", "description"), ("termsOfService", "termsOfService")]
+  let contact := (getMember (some info) "contact").map fun c => pick c [("name", "name"), ("url", "url"), ("email", "email")]
+  let license := (getMember (some info) "license").map fun c => pick c [("name", "name"), ("url", "url")]
+  let withC := match contact with | some c => base.setObjVal! "contact" c | none => base
+  match license with | some l => withC.setObjVal! "license" l | none => withC
+
+/-- what the configuration says components.securitySchemes is -/
+def expectedSchemes (cfg : Json) : Json :=
+  match getMember (some cfg) "openapiGeneratorConfig" |>.bind (getMember · "securitySchemes") with
+  | some (.arr xs) => Json.mkObj (xs.toList.map fun sc =>
+      let flows := (getMember (some sc) "flows").map fun f =>
+        Json.mkObj ((["implicit", "password", "clientCredentials", "authorizationCode"].filterMap fun k =>
+          (getMember (some f) k).map fun fl => (k, pick fl [("authorizationUrl", "authorizationUrl"), ("tokenUrl", "tokenUrl"), ("refreshUrl", "refreshUrl"), ("scopes", "scopes")])))
+      let base := pick sc [("type", "type"), ("description", "description"), ("in", "in"), ("fieldName", "name"), ("scheme", "scheme"), ("openIdConnectUrl", "openIdConnectUrl")]
+      (jstrD sc "name", match flows with | some f => base.setObjVal! "flows" f | none => base))
+  | _ => Json.mkObj []
+
 def checkC20 (input : Json) (impl : Json) : PropOut := Id.run do
   let raw := jstrD input "raw"
   let cfg := (input.getObjVal? "config").toOption.getD Json.null
@@ -218,7 +252,9 @@ def checkC20 (input : Json) (impl : Json) : PropOut := Id.run do
     ("version", Json.str (strPath cfg ["openapiGeneratorConfig", "info", "version"])),
     ("servers", Json.arr #[Json.str (strPath cfg ["openapiGeneratorConfig", "baseUrl"])]),
     ("schemes", Json.arr ((sortS schemes.eraseDups).map Json.str).toArray),
-    ("controllers", Json.arr ((sortS ctls).map Json.str).toArray)]
+    ("controllers", Json.arr ((sortS ctls).map Json.str).toArray),
+    ("info", (dropEmpty (expectedInfo cfg)).getD Json.null),
+    ("securitySchemes", (dropEmpty (expectedSchemes cfg)).getD Json.null)]
   let gotView := Json.mkObj [
     ("rejected", got),
     ("files", Json.arr ((sortS (implFiles.map fun (p, m) => p ++ " " ++ m)).map Json.str).toArray),
@@ -229,13 +265,23 @@ def checkC20 (input : Json) (impl : Json) : PropOut := Id.run do
     ("version", Json.str (jstrD impl "version")),
     ("servers", Json.arr ((jarrD impl "servers").toList.map fun s => Json.str (s.getStr?.toOption.getD "")).toArray),
     ("schemes", Json.arr ((jarrD impl "schemes").toList.map fun s => Json.str (s.getStr?.toOption.getD "")).toArray),
-    ("controllers", Json.arr ((jarrD impl "controllers").toList.map fun s => Json.str (s.getStr?.toOption.getD "")).toArray)]
+    ("controllers", Json.arr ((jarrD impl "controllers").toList.map fun s => Json.str (s.getStr?.toOption.getD "")).toArray),
+    ("info", (dropEmpty ((impl.getObjVal? "info").toOption.getD Json.null)).getD Json.null),
+    ("securitySchemes", (dropEmpty ((impl.getObjVal? "secSchemes").toOption.getD Json.null)).getD Json.null)]
+  -- "honoured literally": every member the configuration determines must be what was produced
+  let keys := ["rejected", "files", "package", "engine", "openapi", "title", "version", "servers", "schemes", "controllers", "info", "securitySchemes"]
+  let badKeys := keys.filter fun k => ((wantView.getObjVal? k).toOption.map Json.compress) ≠ ((gotView.getObjVal? k).toOption.map Json.compress)
+  if !badKeys.isEmpty then fails := fails ++ [s!"accepted-config-not-honoured:{badKeys}"]
   return { model := wantView, implView := gotView, implFails := fails, modelFails := mfails,
            notes := ["d:accepted", "d:engine-" ++ strPath cfg ["routesConfig", "engine"], "d:mode-" ++ mode, s!"d:controllers={ctls.length}"] }
 
 def cfgHandler : Handler := fun prop input impl => do
-  if prop ≠ "C20" then throw s!"mode cfg: no check for property {prop}"
-  let out := checkC20 input (impl.getD Json.null)
+  if prop ≠ "C20" && prop ≠ "C08" then throw s!"mode cfg: no check for property {prop}"
+  let out0 := checkC20 input (impl.getD Json.null)
+  -- C08 looks only at what the DOCUMENT says about the configuration (title, version, servers, securitySchemes, info)
+  let out := if prop = "C20" then out0 else
+    { out0 with implFails := out0.implFails.filter fun f => f.startsWith "accepted-config-not-honoured" &&
+        ((f.splitOn "info").length > 1 || (f.splitOn "securitySchemes").length > 1 || (f.splitOn "title").length > 1 || (f.splitOn "version").length > 1 || (f.splitOn "servers").length > 1 || (f.splitOn "schemes").length > 1) }
   let tag (pre : String) (f : String) :=
     if f.length > 4 && f.get 0 = 'C' && (f.splitOn "-F").length > 1 && (f.splitOn ":").length > 1 && ((f.splitOn ":")[0]!).length ≤ 8
     then pre ++ f else pre ++ "new:" ++ f
